@@ -3,6 +3,7 @@ package main
 import (
 	"fmt"
 	"strings"
+	"time"
 )
 
 func corpusMask() *MProgram {
@@ -23,6 +24,9 @@ func corpusMask() *MProgram {
 			fld(7, "st", "", tSet(tBase("string"))),
 			fld(8, "pl", "", tBase("i64")),
 			fld(9, "rin", "required", tStruct("Inner")),
+			// ids around the boundary of the field-id table of the mask (array for 0..63, map above)
+			fld(63, "ba", "", tBase("i64")),
+			fld(64, "bb", "", tBase("i32")),
 		}},
 	}
 	return &MProgram{Files: []*MFile{f}}
@@ -228,6 +232,9 @@ func zzPathLists() [][][]zzStep {
 		{{f(6), ik(7)}, {f(7)}},
 		{{f(9), f(2)}, {f(3), f(1)}},
 		{{f(4), ix(0), f(3), ix(1)}, {f(6), ik(99)}},
+		{{f(63)}},
+		{{f(64)}, {f(9), f(1)}},
+		{{f(63)}, {f(64)}},
 	}
 }
 
@@ -382,8 +389,8 @@ func c13Variant(label, options string, zeroReq bool) *Prop {
 		Prepare: func(r *runner) error {
 			prog := corpusMask()
 			r.spec.Harnesses = []Harness{
-				{Func: "H_C13_write", Quick: tuples(seq(0, 11), seq(0, 1)), Covers: []string{"end"}},
-				{Func: "H_C13_read", Quick: tuples(seq(0, 11), seq(0, 1)), Covers: []string{"end"}},
+				{Func: "H_C13_write", Quick: tuples(seq(0, 14), seq(0, 1)), Covers: []string{"end"}},
+				{Func: "H_C13_read", Quick: tuples(seq(0, 14), seq(0, 1)), Covers: []string{"end"}},
 				{Func: "H_C13_nil", Covers: []string{"end"}},
 			}
 			return prepareGenerated(r, prog, genConfig{Options: options}, entryC13(zeroReq))
@@ -392,9 +399,9 @@ func c13Variant(label, options string, zeroReq bool) *Prop {
 
 func init() {
 	register(&Prop{
-		ID:          "C13",
+		ID: "C13", QuickBudget: 25 * time.Minute, ThoroughBudget: 90 * time.Minute,
 		Functions:   []string{"generated Write/Read with with_field_mask (FieldWriteMap/Set/List, FieldReadMap/Set/List, Set_FieldMask propagation) for the corpus fm.thrift", "fieldmask.NewFieldMask, (*FieldMask).Field/Int/Str/All/Exist", "thrift_reflection.RegisterAST and descriptor lookups", "generator/golang/thrift.go ZeroWriter output (exercised through the generated code)"},
-		Bounds:      "root struct with required/optional scalars, nested struct, list<struct>, map<string,struct>, map<i32,string>, set<string>, required struct; 12 designed path lists (field by id, list indices incl. out of range, string and int keys present and absent, '*' over elements, nested combinations) x white/black; all scalar leaves of the value symbolic (full width), 2 list elements, 2 map entries with concrete keys; configurations: default, field_mask_halfway, field_mask_zero_required",
+		Bounds:      "root struct with required/optional scalars, nested struct, list<struct>, map<string,struct>, map<i32,string>, set<string>, required struct; 15 designed path lists (field by id, list indices incl. out of range, string and int keys present and absent, '*' over elements, nested combinations) x white/black; all scalar leaves of the value symbolic (full width), 2 list elements, 2 map entries with concrete keys; configurations: default, field_mask_halfway, field_mask_zero_required",
 		Assumptions: []string{"the path lists are designed (sampled); values are solver-decided", "descriptors come from thrift_reflection.RegisterAST on the same IDL text; the embedded descriptor bytes of *-reflection.go (gzip+meta) are not executed (BuildFileDescriptor is stubbed)", "map keys are concrete so that mask lookups by key do not fork"},
 		Variants: []*Prop{
 			c13Variant("default", "with_reflection,with_field_mask", false),
